@@ -396,6 +396,29 @@ func runDefxFileSets() defxResult {
 			res.add("equals-not-reflexive-on-reload", "two loads of the same file set do not compare equal ("+n+")")
 		}
 	}
+	// the same files under a renamed directory: the contents are byte-identical, the configuration is not (source_path
+	// is a field like any other) - two loads compare different, in both directions
+	{
+		dirA, dirB := filepath.Join(base, "moved-a"), filepath.Join(base, "moved-b")
+		writeFile(dirA, "project/pipelines.yml", "pipelines:\n"+gA.yaml("alpha"))
+		writeFile(dirA, "zeta/pipelines.yml", "pipelines:\n"+gB.yaml("beta"))
+		writeFile(dirB, "project-renamed/pipelines.yml", "pipelines:\n"+gA.yaml("alpha"))
+		writeFile(dirB, "zeta/pipelines.yml", "pipelines:\n"+gB.yaml("beta"))
+		la, errA := load(dirA)
+		lb, errB := load(dirB)
+		res.Cases++
+		res.Distinct++
+		if errA != nil || errB != nil {
+			res.add("fileset-rejected:moved", fmt.Sprintf("valid file sets are rejected: %v / %v", errA, errB))
+		} else {
+			// relative to their own roots only the directory name differs
+			if la.Pipelines["alpha"].SourcePath == lb.Pipelines["alpha"].SourcePath {
+				res.add("fileset-sourcepath", "two different directories yield the same source path")
+			} else if la.Equals(*lb) || lb.Equals(*la) {
+				res.add("equals-ignores-moved-file", "two loaded definition sets whose files have identical contents but different paths compare equal")
+			}
+		}
+	}
 	// duplicate name across files, both orders
 	for _, n := range []string{"dup-ab", "dup-ba"} {
 		dir := filepath.Join(base, n)
